@@ -403,7 +403,7 @@ fn check_disconnect(w: &mut World, ci: usize, t_end_ns: u64) -> bool {
             // on a lossy link) gets the retry budget of its own request
             let own_first = w.wire.iter().find(|r| !r.injected && matches!(r.frame, Some(RFrame::Disconnect)) && if *name == "client" { r.src == addr && r.dst == srv && r.t_ns >= created && r.t_ns <= c_gone } else { r.src == srv && r.dst == addr && s_conn_t.map_or(false, |t| r.t_ns >= t) }).map(|r| r.t_ns);
             let start = own_first.map_or(t0, |o| o.max(t0));
-            let deadline = start + (22_000u64).max(*timeout_ms) * MS + 12 * gap + SEC;
+            let deadline = start.saturating_add((22_000u64).max(*timeout_ms).saturating_mul(MS)).saturating_add(12 * gap + SEC);
             let terminal = evs.iter().find(|e| matches!(e.ev, Ev::Disconnect | Ev::Error(_)));
             match terminal {
                 Some(e) if e.t_ns <= deadline => {}
@@ -438,11 +438,12 @@ fn check_disconnect(w: &mut World, ci: usize, t_end_ns: u64) -> bool {
             }
             let (me, peer) = if is_client { (addr, srv) } else { (srv, addr) };
             w.c.inc("c09_disconnect_attempt_timeouts_checked");
-            // an answer put into the socket after the request left and read by a step before the
-            // step that reported the timeout
-            let answer = w.delivered.iter().find(|d| d.src == peer && d.dst == me && matches!(d.frame, Some(RFrame::Disconnect) | Some(RFrame::DisconnectAck)) && d.t_ns > own_first && steps.iter().any(|&s| s >= d.t_ns && s < to)).map(|d| (d.t_ns, matches!(d.frame, Some(RFrame::Disconnect))));
+            // an answer put into the socket after the request left and before the step that
+            // reported the timeout began: a step reads its socket before it looks at its timers
+            let _ = &steps;
+            let answer = w.delivered.iter().find(|d| d.src == peer && d.dst == me && matches!(d.frame, Some(RFrame::Disconnect) | Some(RFrame::DisconnectAck)) && d.t_ns > own_first && d.t_ns < to).map(|d| (d.t_ns, matches!(d.frame, Some(RFrame::Disconnect))));
             if let Some((t_ans, is_req)) = answer {
-                w.viol("C09", "timeout-although-peer-answered", format!("{} (address {}) sent its Disconnect request at t={} ms, read a {} from its peer delivered at t={} ms, and still ended with Error(Timeout) at t={} ms instead of Disconnect: the peer was reachable", name, addr, own_first / MS, if is_req { "Disconnect" } else { "DisconnectAck" }, t_ans / MS, to / MS));
+                w.viol("C09", "timeout-although-peer-answered", format!("{} (address {}) sent its Disconnect request at t={} ms, had a {} from its peer in its socket since t={} ms, and still ended with Error(Timeout) at t={} ms instead of Disconnect: the peer was reachable", name, addr, own_first / MS, if is_req { "Disconnect" } else { "DisconnectAck" }, t_ans / MS, to / MS));
             }
         }
     }
@@ -1699,6 +1700,9 @@ pub fn run_timers(seed: u64, params: &Params, out: &mut ScnOut) {
     let disc_now = rng.chance(0.6);
     let disc_peer_dies = Rng::new(seed ^ 0xd1e5).chance(0.35);
     let mut disc_called = false;
+    let mut stall_rng = Rng::new(seed ^ 0x57a1);
+    let stall_after_request = stall_rng.chance(0.4);
+    let mut stalled = false;
     let mut guard = 0;
     let mut probe_last = u64::MAX;
     let mut max_rto_client = 0u64;
@@ -1759,6 +1763,24 @@ pub fn run_timers(seed: u64, params: &Params, out: &mut ScnOut) {
                         w.server_disconnect(a, disc_now);
                     }
                 }
+            }
+        }
+        // an application that stalls at the worst moment: right after the first of its requests
+        // that the network lets through has left, the caller is not stepped for 2..6 s — the answer
+        // waits in its socket while its resend and give-up deadlines pass
+        if disc_called && stall_after_request && !stalled && disc_lost < 12 {
+            let a = client_addr(0);
+            let (from, to) = if disc_by_client { (a, w.server.addr) } else { (w.server.addr, a) };
+            let sent = w.wire.iter().filter(|r| r.src == from && r.dst == to && !r.injected && matches!(r.frame, Some(RFrame::Disconnect))).count() as u32;
+            if sent > disc_lost {
+                stalled = true;
+                let pause = stall_rng.range(2050, 6000) * MS;
+                if disc_by_client {
+                    w.clients[ci].next_step_ns = w.clients[ci].next_step_ns.max(w.now_ns + pause);
+                } else {
+                    w.server.next_step_ns = w.server.next_step_ns.max(w.now_ns + pause);
+                }
+                w.c.inc("c10_caller_stalled_after_request");
             }
         }
         // traffic while busy
@@ -1963,6 +1985,12 @@ pub fn run_timers(seed: u64, params: &Params, out: &mut ScnOut) {
         }
     }
     check_reack(&mut w);
+    if params.get("prop") == Some("C09") {
+        let t_end_now = w.now_ns;
+        for ci in 0..w.clients.len() {
+            check_disconnect(&mut w, ci, t_end_now);
+        }
+    }
     let connected = w.c.get("cli_connect") > 0;
     let timed_out = w.c.get("c10_timeouts_checked") + w.c.get("c10_handshake_timeouts_checked") + w.c.get("c10_disconnect_attempts_checked") > 0;
     let idle_long = connected && !blackout && t_end > ccfg.active_timeout_ms.max(scfg_ep.active_timeout_ms).saturating_mul(3 * MS);
@@ -2845,12 +2873,16 @@ pub fn run_amplify(seed: u64, params: &Params, out: &mut ScnOut) {
     };
     w.bind_server(scfg, if long_run { (50 * MS, 50 * MS) } else { (10 * MS, 10 * MS) });
     let srv = w.server.addr;
-    // honest clients fill a small server
-    if full {
+    // honest clients fill a small server: from the start, or (half of the time) only after the
+    // first half second, so that handshakes admitted while there was room find the server full
+    // when their ACK arrives
+    let late_honest = full && Rng::new(seed ^ 0x1a7e).chance(0.5);
+    if full && !late_honest {
         for k in 0..3 {
             w.connect_client(Default::default(), client_addr(k), (10 * MS, 10 * MS), None);
         }
     }
+    let mut honest_pending = late_honest;
     let n_addr = rng.range(1, 30) as usize;
     // schedule: (time, source address index, datagram)
     let mut plan: Vec<(u64, usize, Vec<u8>, &'static str)> = Vec::new();
@@ -2959,6 +2991,24 @@ pub fn run_amplify(seed: u64, params: &Params, out: &mut ScnOut) {
         }
         w.c.inc("amp_flooder_addresses");
     }
+    // on-path flooders: an address that does receive the server's SYN-ACK and answers it with the
+    // right nonce, again and again (100..3000 ACKs of 9 bytes). At a server with room the first one
+    // completes the handshake; at a full server it is refused, the handshake is NOT complete, and
+    // whatever the server says to the others must stay below what the address has sent
+    let mut ack_flooders: Vec<(usize, u64, u64, u64)> = Vec::new(); // (address index, ACKs left, gap, next time)
+    {
+        let mut frng = Rng::new(seed ^ 0xacf1);
+        for a in 0..n_addr {
+            if frng.chance(if full { 0.5 } else { 0.15 }) {
+                only_undersized[a] = false;
+                let t0 = if late_honest { frng.range(0, 400) * MS } else { frng.range(0, 8000) * MS };
+                plan.push((t0, a, encode(&RFrame::Syn { version: 3, nonce: frng.u32(), max_receive_rate: 1_000_000, max_packet_size: 1000, max_receive_alloc: 1_000_000 }), "valid-syn-fresh-nonce"));
+                let first_ack = if late_honest { 1200 * MS + frng.range(0, 2000) * MS } else { t0 + frng.range(20, 300) * MS };
+                ack_flooders.push((a, *frng.pick(&[100u64, 1500, 3000]), frng.range(1, 8) * MS, first_ack));
+                w.c.inc("amp_valid_ack_flooders");
+            }
+        }
+    }
     plan.sort_by_key(|p| p.0);
     let addr_of = |a: usize| client_addr(300 + a);
     for a in 0..n_addr {
@@ -2994,6 +3044,23 @@ pub fn run_amplify(seed: u64, params: &Params, out: &mut ScnOut) {
             });
             w.inject(addr_of(a), srv, bytes.clone(), 0);
             pi += 1;
+        }
+        if honest_pending && w.now_ns >= 500 * MS {
+            honest_pending = false;
+            for k in 0..3 {
+                w.connect_client(Default::default(), client_addr(k), (10 * MS, 10 * MS), None);
+            }
+            w.c.inc("amp_servers_filled_after_handshakes_were_admitted");
+        }
+        for fl in ack_flooders.iter_mut() {
+            if fl.1 > 0 && fl.3 <= w.now_ns {
+                if let Some(&n) = w.synack_nonces.get(&addr_of(fl.0)).and_then(|v| v.last()) {
+                    w.inject(addr_of(fl.0), srv, encode(&RFrame::Ack { nonce_ack: n }), 0);
+                    w.c.inc("amp_valid_nonce_acks");
+                    fl.1 -= 1;
+                }
+                fl.3 = w.now_ns + fl.2;
+            }
         }
         // an application that stalls: the server is not stepped for a few seconds now and then
         if hiccup_i < hiccups.len() && w.now_ns >= hiccups[hiccup_i].0 {
